@@ -194,7 +194,7 @@ def run(ck):
                                             "source": [c11_table.TERM_RS, c11_table.LEXER_RS]}]
         ck.evaluations += sum(len(p["src"]) for p in progs)
         bad = [(p["table"], p["name"], p["pos"], p["klass"], p["src"][:1]) for p in progs
-               if (p["table"] in ("primop", "special") and p["klass"] not in ("BlamePos", "BlameNeg", "Unreachable", "Internal")
+               if (p["table"] in ("primop", "special") and p["klass"] not in ("BlamePos", "Unreachable", "Internal")
                    and not p["name"].startswith("UnaryOp::Seq "))
                or (p["table"] == "allowed" and p["klass"] != "Value")
                or (p["table"] == "tail" and (p["klass"] not in ("TailAccess", "BlamePos", "BlameNeg", "Blind")
@@ -237,6 +237,10 @@ def run(ck):
 def replay(ck, path):
     obj = json.load(open(path))
     ok = ck.harness(["nkeval"])
+    rc, out = core.coq_make(["Seal/Print.vo"])          # what the extraction needs
+    if rc != 0:
+        ck.obligation("coq-build:Seal/Print.vo", "make", False, out[-2000:])
+        return
     exe_model = ck.model("C11.v")
     if not ok or not exe_model:
         return
